@@ -26,11 +26,11 @@ var formNames = []string{"source", "ast", "parse-result", "proto"}
 // C09: every way of supplying a file (source, AST, parse result, unlinked proto) gives the same
 // descriptors, and supplied objects are not modified.
 func runC09(h *hx.H) {
-	maxDev := 1
+	maxDev, fullUpTo := 2, 1
 	if h.Thorough() {
-		maxDev = 2
+		maxDev, fullUpTo = 3, 2
 	}
-	h.Rule = fmt.Sprintf("inputs: every compiler-accepted workspace within %d deviation(s) of the three bases x every assignment of {source, AST, parse result, unlinked proto} to its files (4^n) x source-info mode {none, standard}; oracle: descriptors equal those of the all-source compile (source info compared for files not supplied as bare protos), the digest of every supplied proto / parse-result proto is unchanged after the compile, and a second compile that reuses the same supplied objects gives the same result; non-trivial = assignment with >=1 non-source form", maxDev)
+	h.Rule = fmt.Sprintf("inputs: every compiler-accepted workspace within %d deviation(s) of the three bases x input-form assignments x source-info mode {none, standard}; up to %d deviation(s) every assignment of {source, AST, parse result, unlinked proto} to all files (4^n), beyond that the three non-source forms for main.proto with the other files as source; oracle: descriptors equal those of the all-source compile (source info compared for files not supplied as bare protos), the digest of every supplied proto / parse-result proto is unchanged after the compile, and a second compile that reuses the same supplied objects gives the same result; non-trivial = assignment with >=1 non-source form", maxDev, fullUpTo)
 	forEachWS(h, maxDev, func(idx int64, ws *model.WS, ndev int) {
 		h.Eval(1)
 		h.State(1)
@@ -60,12 +60,20 @@ func runC09(h *hx.H) {
 			for i := 0; i < n; i++ {
 				total *= 4
 			}
+			mainIdx := indexOfName(names, "main.proto")
 			for code := 1; code < total; code++ {
 				forms := make([]int, n)
 				c := code
+				onlyMain := true
 				for i := range forms {
 					forms[i] = c % 4
 					c /= 4
+					if forms[i] != 0 && i != mainIdx {
+						onlyMain = false
+					}
+				}
+				if ndev > fullUpTo && !onlyMain {
+					continue
 				}
 				h.NonTrivial++
 				// build the supplied objects
